@@ -6,7 +6,9 @@
    - LineString.SubLineString(start, stop): the coordinates start..stop-1 (a view: it shares storage with the line)
    - xy.IsAcute / IsObtuse: the exact sign of the dot product of the two arms
    - bigxy.Intersection: the crossing point of two non-parallel infinite lines
-   - geom.TransformInPlace: applies the function to every coordinate, in order, in place *)
+   - geom.TransformInPlace: applies the function to every coordinate, in order, in place
+   - geom.Layout: Stride / ZIndex / MIndex / String of the five named layouts and of Layout(n), n > 4
+   - geom.NewPointFlatMaybeEmpty: the EMPTY point exactly when every ordinate is the canonical empty-point NaN *)
 EXTENDS ExactGeom, TLC
 \* cs: Seq of coordinates, dim: 1-based ordinate index, values non-decreasing in that ordinate.
 \* Interpolate returns <<i, f>> (0-based i): the last index whose value is <= val (0 when val is below the first,
@@ -22,5 +24,14 @@ NonDecreasing(cs, dim) == \A j \in 1..(Len(cs) - 1) : cs[j][dim] <= cs[j + 1][di
 SubWant(cs, start, stop) == SubSeq(cs, start + 1, stop)
 AcuteWant(a, o, b) == Dot2(Sub2(a, o), Sub2(b, o)) > 0
 ObtuseWant(a, o, b) == Dot2(Sub2(a, o), Sub2(b, o)) < 0
+\* layouts by number: 0 NoLayout, 1 XY, 2 XYZ, 3 XYM, 4 XYZM, n > 4 Layout(n) (n ordinates: x, y, z, m, further ones)
+LStride(n) == CASE n = 0 -> 0 [] n = 1 -> 2 [] n \in {2, 3} -> 3 [] n = 4 -> 4 [] OTHER -> n
+LZIndex(n) == IF n \in {0, 1, 3} THEN -1 ELSE 2
+LMIndex(n) == IF n \in {0, 1, 2} THEN -1 ELSE IF n = 3 THEN 2 ELSE 3
+LName(n) == CASE n = 0 -> "NoLayout" [] n = 1 -> "XY" [] n = 2 -> "XYZ" [] n = 3 -> "XYM" [] n = 4 -> "XYZM"
+              [] OTHER -> "Layout(" \o ToString(n) \o ")"
+\* the indices lie inside the stride whenever they are not -1, and Z comes before M (design law, checked in ExtrasModel)
+LayoutLaw(n) == /\ (LZIndex(n) # -1 => LZIndex(n) < LStride(n)) /\ (LMIndex(n) # -1 => LMIndex(n) < LStride(n))
+                /\ (LZIndex(n) # -1 /\ LMIndex(n) # -1 => LZIndex(n) < LMIndex(n))
 Parallel(a, b, c, d) == (b[1] - a[1]) * (d[2] - c[2]) - (b[2] - a[2]) * (d[1] - c[1]) = 0
 ====
